@@ -15,7 +15,7 @@ def canon(v, depth=0):
     if v is None or isinstance(v, (bool, int, str)):
         return v
     if isinstance(v, float):
-        return repr(v)
+        return repr(float(v))           # numpy's float64 is a float too, and prints differently
     if isinstance(v, bytes):
         return "bytes:" + v.hex()
     if isinstance(v, (np.generic,)):
